@@ -8,8 +8,12 @@ import (
 	"strconv"
 	"strings"
 
+	"github.com/nspcc-dev/neo-go/pkg/core/native/nativenames"
+	"github.com/nspcc-dev/neo-go/pkg/core/native/noderoles"
+	"github.com/nspcc-dev/neo-go/pkg/crypto/keys"
 	"github.com/nspcc-dev/neo-go/pkg/encoding/bigint"
 	"github.com/nspcc-dev/neo-go/pkg/neotest"
+	"github.com/nspcc-dev/neo-go/pkg/wallet"
 	"github.com/nspcc-dev/neo-go/pkg/vm/stackitem"
 	"github.com/stretchr/testify/require"
 
@@ -41,6 +45,9 @@ func (w *world) signers(S []string) ([]neotest.Signer, []string) {
 			out = append(out, w.stranger)
 		case "IRMAJ":
 			out = append(out, w.irMaj)
+		case "IRMAJOLD": // the majority of the keys that were designated BEFORE the last prep "redesignate"
+			require.NotNil(w.t, w.irMajOld, "IRMAJOLD without a preceding redesignate")
+			out = append(out, w.irMajOld)
 		case "IR1":
 			out = append(out, w.ir1)
 		default:
@@ -88,6 +95,23 @@ func (w *world) exec(st Step) chain.Rec {
 		case w.kind == "netmap" && st.Op == "newepoch":
 			e, _ := w.rawInt("snapshotEpoch")
 			r = w.c.Run(w.h, []neotest.Signer{w.c.Alpha}, "newEpoch", e+1)
+		case st.Op == "redesignate":
+			// NeoFSAlphabet handed over to a fresh key set (tenth seeded batch, C16g): takes effect in the NEXT block, which is
+			// the block of the following step - from there on "IRMAJ" is the majority of the new keys
+			w.regen++
+			var nk []*keys.PrivateKey
+			for i := 0; i < 3; i++ {
+				nk = append(nk, chain.DetKey(w.seed, "ir-gen"+strconv.Itoa(w.regen)+"-"+strconv.Itoa(i)))
+			}
+			sort.Slice(nk, func(i, j int) bool { return nk[i].PublicKey().Cmp(nk[j].PublicKey()) < 0 })
+			pubs := make([]any, len(nk))
+			for i := range nk {
+				pubs[i] = nk[i].PublicKey().Bytes()
+			}
+			r = w.c.Run(w.c.E.NativeHash(w.t, nativenames.Designation), []neotest.Signer{w.c.Cmt}, "designateAsRole", int64(noderoles.NeoFSAlphabet), pubs)
+			w.irMajOld, w.irKeys = w.irMaj, nk
+			w.irMaj = multi(w.t, nk, 2)
+			w.ir1 = neotest.NewSingleSigner(wallet.NewAccountFromPrivateKey(nk[0]))
 		default:
 			w.t.Fatalf("unknown prep op %q for %s", st.Op, w.kind)
 		}
